@@ -23,6 +23,7 @@ type Sym struct {
 	Fields []string // for struct: field names parallel to Kids
 	Kind   string   // "int" "string" "bool" "list" "" (unknown) — best-effort type tag of the term's value
 	str    string   // cached canonical string
+	RK     string   // for tree accessor calls: Go type name of the receiver (IFooContext / FooContext)
 }
 
 func sConst(v constant.Value) *Sym {
